@@ -9,7 +9,7 @@ STRIP_CTRL = '\t\n\r\x0b\x0c\x1c\x1d\x1e\x1f'
 # representatives per class (quick alphabet)
 QUICK = {
     'digit': '09',
-    'upper': 'AZXK',
+    'upper': 'AZXKOIQ',
     'lower': 'az',
     'sep': SEPS,
     'punct': '%()+_"<>&',
@@ -27,7 +27,7 @@ QUICK = {
 }
 THOROUGH_EXTRA = {
     'digit': '12345678',
-    'upper': 'BCDEFGHIJLMNOPQRSTUVWY',
+    'upper': 'BCDEFGHJLMNPRSTUVWY',
     'lower': 'bkx',
     'punct': '!#$;=?@[\\]^`{|}~',
     'strip-control': '\x0c\x1d\x1e',
